@@ -49,6 +49,10 @@ CLAIMS = {
   text="partial: the documented stop rule, for all states: singleStep asks the debugger before a statement exactly when single-stepping is on and the call depth of the statement's frame is below the requested depth (both directions: a call-site assertion and a ghost call history), and hands the statement back untouched when single-stepping is off; applyDebugOp switches single-stepping on with the requested depth for Depth > 0 and off otherwise; the commands ask for depth: step = DebugOpStep, next = current depth + 1, finish = current depth, continue = DebugOpContinue - which is 'any depth / same or shallower / shallower / never'",
   note="trusted: go/ssa front end, SMT solvers, the assumed contract of Stmt. Not covered: transparency (same results with and without the debugger: two executions), the command table, the initial values of the package variables DebugOpStep / DebugOpContinue, explicit breakpoints, Interp.debug",
   ref="DESIGN.md section 0.1, section 5 C19"),
+ "C20": dict(
+  text="thin: only the third mechanism the property names, 'trivial wrapper removal keeping declaration blocks' (base.unwrapTrivialAst2, behind UnwrapTrivialAst / UnwrapTrivialAstKeepBlocks), for all inputs with a loop invariant: the result is never a parenthesis, an expression statement or a declaration statement wrapper; something that is no wrapper comes back as it is; with blocks kept a block comes back as it is; a block whose only statement is a declaration is never unwrapped",
+  note="trusted: go/ssa front end, SMT solvers, the closed world of Ast wrapper types (ast2). Not covered: macro expansion proper (code walk, macro call detection, argument consumption, repetition, quote / quasiquote), blocks holding one `x := ...`, SimplifyNodeForQuote",
+  ref="DESIGN.md section 0.1, section 5 C20"),
  "C22": dict(
   text="partial: lemma functions (Go code under the build tag, calling the real methods) with contracts, for each of the 53 wrapper types: unwrapping a wrapped node returns the node (ToNode(ToAst(n)) == n for every node type, by case split over the wrapper types); the empty copy made by New is a fresh node of the same type with the same token, string, boolean and channel-direction attributes and the same 'if any' positions (alias '=', call '...', declaration '(', 'func'); Size is the documented constant and Get can be called for exactly the indexes 0..Size-1 (it fails for every other index); slot by slot, the child read with Get(i) and stored with Set(i) into an empty copy is the child (same node, same list), for each of the 79 child slots of the 46 fixed-size wrappers - for all nodes, not a corpus",
   note="trusted: go/ssa front end, SMT solvers, closed world (every Ast value is one of the compiled wrapper types, generated interpreter proxies excepted), children of a node are nodes of the wrapped types and no typed nil pointers. BlockStmtToExpr changes nothing. Not covered: the round trip as one statement for nodes with several children (proved per slot), children of the wrong kind (Set converts them), Go 1.18 type parameter lists, list-like wrappers beyond New, Append / Slice, Package (TODO in the code), positions / resolution information / comments",
